@@ -398,12 +398,14 @@ pub struct ToyResolver {
     pub dh: bool,
     pub cipher: bool,
     pub hash: bool,
+    /// non-zero: the random source of this resolver yields this byte forever (a recognisable source)
+    pub mark: u8,
 }
 
 impl CryptoResolver for ToyResolver {
     fn resolve_rng(&self) -> Option<Box<dyn Random>> {
         // never used for real randomness: the session wrapper replaces it by the scripted source
-        if self.rng { Some(Box::new(ScriptedRng::new(Vec::new(), new_log()))) } else { None }
+        if self.rng { Some(Box::new(ScriptedRng::new(vec![self.mark; 64], new_log()))) } else { None }
     }
     fn resolve_dh(&self, choice: &DHChoice) -> Option<Box<dyn Dh>> {
         if self.dh { Some(Box::new(ToyDh::new(dh_sel(choice)))) } else { None }
@@ -448,7 +450,7 @@ impl CryptoResolver for SessionResolver {
 /// `none`, `default`, `ring`, `fb(<a>,<b>)`.
 pub fn resolver_from_expr(e: &str) -> Option<BoxedCryptoResolver> {
     let t = |rng, dh, cipher, hash| -> Option<BoxedCryptoResolver> {
-        Some(Box::new(ToyResolver { rng, dh, cipher, hash }))
+        Some(Box::new(ToyResolver { rng, dh, cipher, hash, mark: 0 }))
     };
     match e {
         "toy" => t(true, true, true, true),
@@ -457,6 +459,8 @@ pub fn resolver_from_expr(e: &str) -> Option<BoxedCryptoResolver> {
         "toy-nocipher" => t(true, true, false, true),
         "toy-nohash" => t(true, true, true, false),
         "none" => t(false, false, false, false),
+        "mark1" => Some(Box::new(ToyResolver { rng: true, dh: true, cipher: true, hash: true, mark: 1 })),
+        "mark2" => Some(Box::new(ToyResolver { rng: true, dh: true, cipher: true, hash: true, mark: 2 })),
         "default" => Some(Box::new(DefaultResolver)),
         "ring" => Some(Box::new(RingResolver)),
         _ => {
